@@ -151,6 +151,16 @@ def run_ttp(cfg):
     err = None
     segs = []
     try:
+        if cfg.get("presatisfied"):
+            # the condition objects arrive already satisfied (a preview run on ANOTHER model), the calculator's model has never been solved
+            m0, _, o0 = K.build(cfg)
+            o0.cap = 10 ** 9
+            for c_ in conds:
+                m0.addStoppingCondition(c_, "and")
+            with contextlib.redirect_stdout(io.StringIO()):
+                m0.solve(cfg["ttp"][3])
+            if not all(c_.isSatisfied() for c_ in conds):
+                raise RuntimeError("harness: preview run did not satisfy the conditions")
         calc = TTPCalculator(m, conds + [spy])
         orig = calc._getStopTime
 
@@ -302,4 +312,8 @@ def gen_ttp(rng, tier, ref):
         stop = [("vf", True, 0.004, "and", None), ("ravg", True, 2e-10, "and", None)]
         cfgs.append(dict(phases=[dict(name="beta", gamma=0.05)], D=1e-15, cap=10 ** 9, tag="ttp-" + it, stop=stop, se=2.4e-4, x0=0.02,
                          ttp=(1000.0, 1058.0, 2, 30.0), calls=[]))
+    # condition objects that arrive satisfied from a preview run on another model; the calculator's own model is fresh
+    stop = [("vf", True, float(a[len(a) // 3] if a[len(a) // 3] > 0 else max(a) / 2), "and", None), ("dens", True, float(ref["dens"][len(a) // 2]), "and", None)]
+    cfgs.append(dict(phases=[dict(name="beta", gamma=0.05)], D=1e-16, cap=10 ** 9, tag="ttp-presatisfied", stop=stop, se=1e-5,
+                     ttp=(990.0, 1010.0, 2, 60.0), calls=[], presatisfied=True))
     return cfgs
